@@ -203,7 +203,8 @@ Section RunLocal.
 
   Definition names_of (sts : list step) : list string :=
     flat_map (fun s => match st_name s with Some n => [n] | None => [] end) sts.
-  Definition final_fs (f0 : fs) (sts : list step) : fs := last (map st_after sts) f0.
+  Fixpoint final_fs (f0 : fs) (sts : list step) : fs :=      (* the directory after the last executed command *)
+    match sts with [] => f0 | s :: r => final_fs (st_after s) r end.
   Definition last_code (sts : list step) : option Z :=
     match rev sts with s :: _ => Some (r_code (st_res s)) | [] => None end.
 
@@ -267,6 +268,7 @@ Arguments mk_ji {cmd}.
 Arguments ji_jid {cmd}. Arguments ji_cmds {cmd}. Arguments ji_files {cmd}. Arguments ji_ret {cmd}. Arguments ji_env {cmd}.
 Arguments mk_step {cmd}. Arguments st_cmd {cmd}. Arguments st_name {cmd}. Arguments st_before {cmd}.
 Arguments st_res {cmd}. Arguments st_after {cmd}.
+Arguments names_of {cmd}. Arguments final_fs {cmd}. Arguments last_code {cmd}. Arguments requested {cmd}.
 Arguments rr_outcome {cmd}. Arguments rr_steps {cmd}. Arguments rr_ext {cmd}. Arguments rr_scratch {cmd}.
 
 (* ================================================================== scripted commands (the oracle of the tie) *)
